@@ -310,16 +310,19 @@ func (r *refEval) paramFilter(f ParamFilter, p Prop) tri {
 // textVerdict: substring test on the property (or parameter) value, inverted
 // by negate-condition (RFC 4791 9.7.5). Each reading is a set of haystacks and
 // holds iff some haystack of the set contains the text; comparison is tried
-// octet-wise and under ASCII case folding (RFC 4791's default collation
-// i;ascii-casemap vs. the statement's plain "substring"). A verdict is given
-// only if every reading agrees.
+// octet-wise, under ASCII case folding (RFC 4791's default collation
+// i;ascii-casemap vs. the statement's plain "substring") and under Unicode
+// lower- and upper-casing (i;unicode-casemap, which a server may apply). A
+// verdict is given only if every reading agrees.
 func (r *refEval) textVerdict(tm TextMatch, readings [][]string) tri {
 	if readings == nil {
 		return triU
 	}
 	seenT, seenF := false, false
 	for _, hay := range readings {
-		exact, folded := false, false
+		// i;octet, i;ascii-casemap, and the two ways a full Unicode case
+		// mapping (i;unicode-casemap, RFC 5051) is commonly implemented
+		exact, folded, lower, upper := false, false, false, false
 		for _, c := range hay {
 			if strings.Contains(c, tm.Text) {
 				exact = true
@@ -327,8 +330,14 @@ func (r *refEval) textVerdict(tm TextMatch, readings [][]string) tri {
 			if strings.Contains(asciiFold(c), asciiFold(tm.Text)) {
 				folded = true
 			}
+			if strings.Contains(strings.ToLower(c), strings.ToLower(tm.Text)) {
+				lower = true
+			}
+			if strings.Contains(strings.ToUpper(c), strings.ToUpper(tm.Text)) {
+				upper = true
+			}
 		}
-		for _, b := range []bool{exact, folded} {
+		for _, b := range []bool{exact, folded, lower, upper} {
 			if b {
 				seenT = true
 			} else {
